@@ -74,6 +74,8 @@ structure Inv (m : KV) (fields : List String) (a : AG) : Prop where
     (m.get (.entry (labelField g "v") r.label id)).isSome ∧ (m.get (.term (labelField g "v") r.label)).isSome
   eindex : ∀ g id r, a.getE g id = some r →
     (m.get (.entry (labelField g "e") r.label id)).isSome ∧ (m.get (.term (labelField g "e") r.label)).isSome
+  /-- every persisted index field belongs to a listed graph (DeleteGraph removes a graph's fields) -/
+  fieldOwner : ∀ f, (m.get (.field f)).isSome → fieldGraph f ∈ a.graphs
 
 /-- The refinement relation: MODEL state `s` represents abstract graph store `a`. -/
 structure Refines (s : KState) (a : AG) : Prop where
@@ -208,6 +210,7 @@ theorem inv_congr {m : KV} {f : List String} {a b : AG} (h : Inv m f a)
   · intro g; rw [hg]; exact h.fieldsE g
   · intro g id r; rw [e1]; exact h.vindex g id r
   · intro g id r; rw [e2]; exact h.eindex g id r
+  · intro f hf; rw [hg]; exact h.fieldOwner f hf
 
 theorem inv_touch {m : KV} {f : List String} {a : AG} (h : Inv m f a) (g : String) :
     Inv m f (a.touch g) := inv_congr h rfl rfl rfl
